@@ -339,6 +339,9 @@ func init() {
 		return tuple{in.ts.BV(0, 64), iface{}}
 	}, "fmt.Printf", "fmt.Println", "fmt.Print", "fmt.Fprintf", "fmt.Fprintln", "fmt.Fprint")
 
+	// ---- reflect: only as an opaque token (e.g. reflect.TypeOf(x) handed to a logger) ----
+	reg(func(fr *frame, args []value) value { return opaque{"reflect.TypeOf"} }, "reflect.TypeOf", "reflect.ValueOf")
+
 	// ---- math/rand: seeding is a no-op, draws are arbitrary values ----
 	reg(func(fr *frame, args []value) value { return nil }, "math/rand.Seed", "(*math/rand.Rand).Seed", "(*math/rand.rngSource).Seed", "(*math/rand.lockedSource).seed")
 	randInt := func(w int, bounded bool) intrinsicFn {
@@ -709,6 +712,16 @@ func (in *interp) harnessAPI(fr *frame, name string, args []value) (value, bool)
 		}
 		in.jsonBinds = append(in.jsonBinds, jsonBind{first: in.asTerm(m[0], "vJSONBind byte"), n: len(m), obj: args[1]})
 		return nil, true
+	case "vSetStub":
+		// vSetStub(nameContains string, results ...interface{}): the next calls of a by-name stub of
+		// kind "harness" whose name contains nameContains return these results
+		sub := goString(fr, args[0])
+		var res []value
+		if a, ok := args[1].([]value); ok {
+			res = a
+		}
+		in.harnessStubs[sub] = res
+		return nil, true
 	case "vStubCalls":
 		// number of calls so far on this path of by-name stubbed functions whose name contains the argument
 		sub := goString(fr, args[0])
@@ -987,6 +1000,33 @@ func (in *interp) runStub(fr *frame, fi *fnInfo, args []value) value {
 			return mk(func(t types.Type, i int) value { return in.freshOfType(t, "uf."+fi.name, n) })
 		})
 		return copyDeep(r)
+	case "harness":
+		for sub, vals := range in.harnessStubs {
+			if !strings.Contains(fi.name, sub) {
+				continue
+			}
+			k := 0
+			return mk(func(t types.Type, i int) value {
+				if k >= len(vals) {
+					in.unsupported("harness stub " + fi.name + ": too few results registered")
+				}
+				v := vals[k]
+				k++
+				it, ok := v.(iface)
+				if !ok {
+					return v
+				}
+				if _, isIface := t.Underlying().(*types.Interface); isIface {
+					return it // result is itself an interface value
+				}
+				if it.t == nil {
+					return in.zero(t)
+				}
+				return it.v
+			})
+		}
+		in.unsupported("harness stub " + fi.name + ": no results registered (vSetStub)")
+		return nil
 	case "jsonbind":
 		// func Unmarshal(data []byte, v interface{}) error : v receives the object bound to data by vJSONBind
 		data, _ := args[0].([]value)
